@@ -692,11 +692,12 @@ class TimerNoop(BaseTimerContext):
 class TimerContext(BaseTimerContext):
     """Low resolution timeout context manager"""
 
-    __slots__ = ("_loop", "_tasks", "_cancelled", "_cancelling")
+    __slots__ = ("_loop", "_tasks", "_cancelled", "_cancelling", "_timed_out")
 
     def __init__(self, loop: asyncio.AbstractEventLoop) -> None:
         self._loop = loop
         self._tasks: list[asyncio.Task[Any]] = []
+        self._timed_out: set[asyncio.Task[Any]] = set()
         self._cancelled = False
         self._cancelling = 0
 
@@ -732,8 +733,11 @@ class TimerContext(BaseTimerContext):
         if self._tasks:
             enter_task = self._tasks.pop()
 
-        if exc_type is asyncio.CancelledError and self._cancelled:
+        if exc_type is asyncio.CancelledError and enter_task in self._timed_out:
             assert enter_task is not None
+            # timeout() cancelled the task once, however many times it had
+            # entered: only one of the nested exits takes that request back.
+            self._timed_out.discard(enter_task)
             # The timeout was hit, and the task was cancelled
             # so we need to uncancel the last task that entered the context manager
             # since the cancellation should not leak out of the context manager
@@ -748,7 +752,8 @@ class TimerContext(BaseTimerContext):
 
     def timeout(self) -> None:
         if not self._cancelled:
-            for task in set(self._tasks):
+            self._timed_out = set(self._tasks)
+            for task in self._timed_out:
                 task.cancel()
 
             self._cancelled = True
